@@ -68,6 +68,20 @@ def uint32Field (x : Int) : PyM Int := if x < 0 ∨ x ≥ 2 ^ 32 then .error .Va
 /-- `buf[i]` on a `bytes` / `bytearray`: an int in `range(256)` -/
 def byteAt (buf : Bytes) (i : Int) : PyM Int := (pyIndex buf i).map (fun x => (x.toNat : Int))
 
+/-- `k in d` on a `dict` kept as its items in insertion order -/
+def dictContains {β} (d : List (Text × β)) (k : Text) : Bool := d.any (fun e => e.1 = k)
+
+/-- `d[k]`: KeyError for a missing key -/
+def dictGet {β} (d : List (Text × β)) (k : Text) : PyM β :=
+  match d.find? (fun e => e.1 = k) with
+  | some e => .ok e.2
+  | none => .error .KeyError
+
+/-- `d[k] = v`: an existing key keeps its place, a new one goes to the end -/
+def dictSet {β} : List (Text × β) → Text → β → List (Text × β)
+  | [], k, v => [(k, v)]
+  | (k', v') :: rest, k, v => if k' = k then (k', v) :: rest else (k', v') :: dictSet rest k v
+
 /-- `bytearray(n)`: `n` zero bytes; a negative count raises ValueError. -/
 def bytearrayZeros (n : Int) : PyM Bytes := if n < 0 then .error .ValueError else .ok (List.replicate n.toNat 0)
 
